@@ -149,6 +149,47 @@ def real_phase(run, prop, tier, wd, binary, scs, inv, mon_extra, tag="b"):
     return drift
 
 
+def registry_phase(run, tier, wd, binary):
+    """C07: two distinct components can never be registered under one name (Registry.tla, replay direction)"""
+    import re
+    rd = os.path.join(wd, "reg")
+    os.makedirs(rd)
+    vlib.stage_specs(rd, ["Registry.tla", "MCRegistry.tla", "TraceRegistry.tla", "MCRegistryTrace.tla"])
+    consts = dict(Objects="{1, 2, 3, 4, 5}", NameOf="<- NameOfDef", MaxOps=4 if tier == "quick" else 5)
+    vlib.write_cfg(os.path.join(rd, "r.cfg"), constants=consts, spec="Spec", invariants=["C07_OnePerName", "Export"], properties=["C07_FirstWins"])
+    r = vlib.run_tlc(rd, "MCRegistry", "r.cfg", workers=4, timeout=1800, jvm=vlib.JVM_BIG)
+    run.add_model_run("Registry: every registration / lookup sequence of %s operations over 5 objects (3 names)" % consts["MaxOps"], r)
+    if not r.ok:
+        raise vlib.Infra("Registry.tla: %s" % r.violated)
+    hists = [json.loads(json.loads('"' + m + '"')) for m in re.findall(r'<<"REGHIST", "(.*)">>', r.out)]
+    if len(hists) > 40000:
+        hists = random.Random(run.seed).sample(hists, 40000)
+    vlib.write_ndjson(os.path.join(rd, "h.ndjson"), hists)
+    p = vlib.run_harness(binary, ["registry", "-in", "h.ndjson", "-out", "rt.ndjson"], cwd=rd)
+    if p.returncode != 0:
+        raise vlib.Infra("registry replay failed: " + p.stderr[-500:])
+    groups = el.split_trace(os.path.join(rd, "rt.ndjson"), marker='"op":"hist"')
+    tc = dict(consts, MaxOps=100)
+    drift = 0
+    for layer, spec, inv, props in (("monitor", "MonitorSpec", [], ["M_C07_GetReturnsRegistered", "M_C07_SecondRejected"]),
+                                    ("conformance", "TraceSpec", ["C07_OnePerName"], [])):
+        st, fails = el.validate_groups(rd, groups, "MCRegistryTrace", tc, inv, props, layer[:3], spec=spec)
+        run.cov["states"] += st["states"]
+        run.cov["transitions"] += st["generated"]
+        for f in fails:
+            if f["kind"] == "postcondition":
+                if layer == "monitor":
+                    raise vlib.Infra("registry monitor could not consume a history: " + f["tlc"][:300])
+                drift += 1
+                continue
+            run.violation("real singleton registry (%s): %s violated" % (layer, f["name"]),
+                          dict(kind="registry", history=[json.loads(x) for x in groups[f["group"]][1:]], operator=f["name"]))
+    run.cov["traces_validated_against_impl"] += len(groups)
+    run.cov["registry_histories_replayed"] = len(groups)
+    run.sample(dict(registry_history=hists[len(hists) // 2]))
+    return drift
+
+
 def run_check(prop, tier, replay=None):
     run = vlib.Run(prop, tier, "model_checking")
     rng = random.Random(run.seed * 104729 + int(prop[1:]))
@@ -171,6 +212,8 @@ def run_check(prop, tier, replay=None):
         else:
             scs = scenarios_for(prop, tier, rng)
         drift = real_phase(run, prop, tier, workdir, binary, scs, INV[prop], MON_EXTRA[prop])
+        if prop == "C07" and replay is None:
+            drift += registry_phase(run, tier, workdir, binary)
         if th:
             th.join()
             if mc_err:
